@@ -393,7 +393,9 @@ struct Cont {
     c.get = [=](const std::string &k) { return ordof(RECV.get##Name(k)); }; \
     c.cnt = [=]() { return (size_t)RECV.countFn(); }; \
     c.geti = [=](size_t i) { \
-        if (!(CHECKED) && i >= (size_t)RECV.countFn()) { try { (void)RECV.get##Name(i); } catch (...) {} throw nix::OutOfBounds("index past the end"); } \
+        if ((CHECKED) != 1 && i >= (size_t)RECV.countFn()) { \
+            if ((CHECKED) == 0) { try { (void)RECV.get##Name(i); } catch (...) {} } \
+            throw nix::OutOfBounds("index past the end"); } \
         return ordof(RECV.get##Name(i)); }; \
     c.ls = [=]() { return ords(RECV.listFn()); }; \
     c.hash = [=](int k) { return RECV.has##Name(ARGFN(k)); }; \
@@ -401,7 +403,7 @@ struct Cont {
     c.geti_full = [=](size_t i, std::string &nm, std::string &id, bool &hh) { \
         ETYPE e = RECV.get##Name(i); if (!e) return std::string("-"); \
         id = e.id(); nm = name_of(e); hh = RECV.has##Name(e); return ord_str(id); }; \
-    c.checked_index = (CHECKED);
+    c.checked_index = (CHECKED) == 1;
 
 template<typename E> static std::string name_of(const E &e) { return e.name(); }
 template<> inline std::string name_of<nix::Feature>(const nix::Feature &) { return ""; }
@@ -409,8 +411,8 @@ template<> inline std::string name_of<nix::Feature>(const nix::Feature &) { retu
 static Cont container(const std::string &ptok, char K) {
     Cont c;
     if (ptok == "F") {
-        if (K == 'B') { CONT_COMMON(file, Block, blockCount, blocks, argB, nix::Block, true) return c; }
-        if (K == 'S') { CONT_COMMON(file, Section, sectionCount, sections, argS, nix::Section, true) return c; }
+        if (K == 'B') { CONT_COMMON(file, Block, blockCount, blocks, argB, nix::Block, 1) return c; }
+        if (K == 'S') { CONT_COMMON(file, Section, sectionCount, sections, argS, nix::Section, 1) return c; }
         refuse("driver::receiver");
     }
     int pk = (int)dec_int(ptok);
@@ -419,29 +421,29 @@ static Cont container(const std::string &ptok, char K) {
     switch (h.kind) {
     case 'S': {
         nix::Section s = h.s;
-        if (K == 'S') { CONT_COMMON(s, Section, sectionCount, sections, argS, nix::Section, true) return c; }
-        if (K == 'P') { CONT_COMMON(s, Property, propertyCount, properties, argP, nix::Property, false) return c; }
+        if (K == 'S') { CONT_COMMON(s, Section, sectionCount, sections, argS, nix::Section, 1) return c; }
+        if (K == 'P') { CONT_COMMON(s, Property, propertyCount, properties, argP, nix::Property, 0) return c; }
         break; }
     case 'B': {
         nix::Block b = h.b;
-        if (K == 'A') { CONT_COMMON(b, DataArray, dataArrayCount, dataArrays, argA, nix::DataArray, true) return c; }
-        if (K == 'D') { CONT_COMMON(b, DataFrame, dataFrameCount, dataFrames, argD, nix::DataFrame, true) return c; }
-        if (K == 'T') { CONT_COMMON(b, Tag, tagCount, tags, argT, nix::Tag, true) return c; }
-        if (K == 'M') { CONT_COMMON(b, MultiTag, multiTagCount, multiTags, argM, nix::MultiTag, true) return c; }
-        if (K == 'G') { CONT_COMMON(b, Group, groupCount, groups, argG, nix::Group, true) return c; }
-        if (K == 'R') { CONT_COMMON(b, Source, sourceCount, sources, argR, nix::Source, true) return c; }
+        if (K == 'A') { CONT_COMMON(b, DataArray, dataArrayCount, dataArrays, argA, nix::DataArray, 1) return c; }
+        if (K == 'D') { CONT_COMMON(b, DataFrame, dataFrameCount, dataFrames, argD, nix::DataFrame, 1) return c; }
+        if (K == 'T') { CONT_COMMON(b, Tag, tagCount, tags, argT, nix::Tag, 1) return c; }
+        if (K == 'M') { CONT_COMMON(b, MultiTag, multiTagCount, multiTags, argM, nix::MultiTag, 1) return c; }
+        if (K == 'G') { CONT_COMMON(b, Group, groupCount, groups, argG, nix::Group, 1) return c; }
+        if (K == 'R') { CONT_COMMON(b, Source, sourceCount, sources, argR, nix::Source, 1) return c; }
         break; }
     case 'R': {
         nix::Source r = h.r;
-        if (K == 'R') { CONT_COMMON(r, Source, sourceCount, sources, argR, nix::Source, false) return c; }
+        if (K == 'R') { CONT_COMMON(r, Source, sourceCount, sources, argR, nix::Source, 0) return c; }
         break; }
     case 'T': {
         nix::Tag t = h.t;
-        if (K == 'X') { CONT_COMMON(t, Feature, featureCount, features, argX, nix::Feature, true) c.named = false; return c; }
+        if (K == 'X') { CONT_COMMON(t, Feature, featureCount, features, argX, nix::Feature, 1) c.named = false; return c; }
         break; }
     case 'M': {
         nix::MultiTag m = h.m;
-        if (K == 'X') { CONT_COMMON(m, Feature, featureCount, features, argX, nix::Feature, false) c.named = false; return c; }
+        if (K == 'X') { CONT_COMMON(m, Feature, featureCount, features, argX, nix::Feature, 2 /* never called out of range: aborts (DESIGN.md #30) */) c.named = false; return c; }
         break; }
     }
     refuse("driver::receiver");
